@@ -154,15 +154,6 @@ func checkC18(cx *Ctx, r *Report) {
 			if !ok {
 				continue
 			}
-			for _, t := range []types.Type{tn.Type(), types.NewPointer(tn.Type())} {
-				ms := types.NewMethodSet(t)
-				for i := 0; i < ms.Len(); i++ {
-					switch ms.At(i).Obj().Name() {
-					case "MarshalXML", "MarshalXMLAttr", "MarshalText", "UnmarshalXML", "UnmarshalXMLAttr", "UnmarshalText":
-						r.Fail("R-TYPED", "custom-marshaller:"+shortPkg(p.PkgPath)+"."+name+"."+ms.At(i).Obj().Name(), w.Pos(ms.At(i).Obj().Pos()), "wire struct "+name+" has a hand-written "+ms.At(i).Obj().Name()+": its encoding is no longer the escaping, symmetric encoding of encoding/xml")
-					}
-				}
-			}
 			st, ok := tn.Type().Underlying().(*types.Struct)
 			if !ok {
 				continue
@@ -189,7 +180,7 @@ func checkC18(cx *Ctx, r *Report) {
 		}
 	}
 	r.Extra["raw_markup_fields"] = nRaw
-	r.Ok("R-TYPED", "no-custom-marshallers", "", "no wire struct implements a custom XML/text (un)marshaller")
+	cx.checkNoCustomMarshallers(r)
 	// --- tags of the emitted types ---------------------------------------------------------------------------
 	cx.checkTags(r, "R-TAG", emittedTypes...)
 
@@ -410,5 +401,37 @@ func (cx *Ctx) checkMarshalUntouched(r *Report) {
 			}
 		}
 		r.Check(len(vias) == 0, "R-VFG", k+":untouched", w.FnPos(fn), "the serialised document is handed on as the encoder wrote it", "the serialised XML text is rewritten before it is handed on ("+strings.Join(vias, ", ")+"): replacements on the text cannot tell markup from escaped data")
+	}
+}
+
+// checkNoCustomMarshallers (R-TYPED, shared with C03 and C04): no wire struct has a hand-written XML / text
+// (un)marshaller. encoding/xml's own encoding escapes every string, is the same whether a value is reached through a
+// pointer or by value, and is what the decoder reverses; a custom method changes the text (trimming, CDATA), and one
+// with a pointer receiver runs only where the value is addressable - the bytes that get signed and the bytes that
+// get sent then differ.
+func (cx *Ctx) checkNoCustomMarshallers(r *Report) {
+	w := cx.W
+	n := 0
+	for _, p := range w.Pkgs {
+		if !isXMLModelPkg(p.Types) {
+			continue
+		}
+		for _, name := range p.Types.Scope().Names() {
+			tn, ok := p.Types.Scope().Lookup(name).(*types.TypeName)
+			if !ok {
+				continue
+			}
+			ms := types.NewMethodSet(types.NewPointer(tn.Type()))
+			for i := 0; i < ms.Len(); i++ {
+				switch ms.At(i).Obj().Name() {
+				case "MarshalXML", "MarshalXMLAttr", "MarshalText", "UnmarshalXML", "UnmarshalXMLAttr", "UnmarshalText":
+					n++
+					r.Fail("R-TYPED", "custom-marshaller:"+shortPkg(p.PkgPath)+"."+name+"."+ms.At(i).Obj().Name(), w.Pos(ms.At(i).Obj().Pos()), "wire struct "+name+" has a hand-written "+ms.At(i).Obj().Name()+": its encoding is no longer the escaping, symmetric encoding of encoding/xml")
+				}
+			}
+		}
+	}
+	if n == 0 {
+		r.Ok("R-TYPED", "no-custom-marshallers", "", "no wire struct implements a custom XML/text (un)marshaller")
 	}
 }
